@@ -69,6 +69,13 @@ package security
 //@   ghost payloadG int = 0
 //@   ghost jsonG int = 0
 //@   requires serviceCore != nil
+//@   ghost updatedG bool = false
+//@   at call Store#1 before
+//@     assert [the-registry-entry-of-this-client-is-replaced] cast(key, "string") == clientID
+//@   at call Store#1
+//@     ghost updatedG := true
+//@   at call GetAllAccessControls#1 before
+//@     assert [snapshot-for-the-file-is-taken-after-the-registry-was-updated] updatedG
 //@   at call GetAllAccessControls#1
 //@     ghost payloadG := $result
 //@   at call Marshal#1 before
@@ -83,6 +90,13 @@ package security
 //@   ghost payloadG int = 0
 //@   ghost jsonG int = 0
 //@   requires serviceCore != nil
+//@   ghost updatedG bool = false
+//@   at call Delete#1 before
+//@     assert [the-registry-entry-of-this-client-is-removed] cast(key, "string") == clientID
+//@   at call Delete#1
+//@     ghost updatedG := true
+//@   at call GetAllAccessControls#1 before
+//@     assert [snapshot-for-the-file-is-taken-after-the-registry-was-updated] updatedG
 //@   at call GetAllAccessControls#1
 //@     ghost payloadG := $result
 //@   at call Marshal#1 before
@@ -97,6 +111,19 @@ package security
 //@   ghost payloadG int = 0
 //@   ghost jsonG int = 0
 //@   requires serviceCore != nil && clientInfo != nil
+//@   ghost updatedG bool = false
+//@   at call Delete#1 before
+//@     assert [the-registry-entry-of-this-client-is-removed] cast(key, "string") == clientInfo.ClientID
+//@   at call Delete#1
+//@     ghost updatedG := true
+//@   at call DeleteClientAccessControls#1 before
+//@     assert [a-removed-client-loses-its-access-controls-through-the-write-through-path] clientID == clientInfo.ClientID
+//@   at call Store#1 before
+//@     assert [the-registry-entry-of-this-client-is-replaced] cast(key, "string") == clientInfo.ClientID && cast(value, "*security.ClientInfo") == clientInfo
+//@   at call Store#1
+//@     ghost updatedG := true
+//@   at call GetClients#1 before
+//@     assert [snapshot-for-the-file-is-taken-after-the-registry-was-updated] updatedG
 //@   at call GetClients#1
 //@     ghost payloadG := $result
 //@   at call Marshal#1 before
